@@ -55,11 +55,12 @@ class _Names:
 class _ModProxy:
     """stands for a module bound to a name inside one repo module; consults the fault plan at chosen callables"""
 
-    def __init__(self, real, faults, prefix, wrap_writer=False):
+    def __init__(self, real, faults, prefix, wrap_writer=False, wrap_reader=False):
         self.__dict__['_real'] = real
         self.__dict__['_faults'] = faults
         self.__dict__['_prefix'] = prefix
         self.__dict__['_wrap_writer'] = wrap_writer
+        self.__dict__['_wrap_reader'] = wrap_reader
 
     def __getattr__(self, name):
         real = getattr(self._real, name)
@@ -92,10 +93,43 @@ class _ModProxy:
                     return _Writer(h, faults)
                 return h
             return open_
+        if name == 'AlignmentFile' and self._wrap_reader:
+            return reader_open(self._faults)
         return real
 
     def __setattr__(self, name, value):
         setattr(self._real, name, value)
+
+
+_READER_CLS = []
+
+
+def reader_open(faults):
+    """opener for the tagger's INPUT: a genuine subclass of pysam.AlignmentFile (isinstance checks in the repository keep working)
+    whose fetch() consults the fault plan once per delivered record - the read(2) side of the I/O seam"""
+    import pysam
+    if not _READER_CLS:
+        class _Reader(pysam.AlignmentFile):
+            _faults = None
+
+            def fetch(self, *a, **k):
+                it = pysam.AlignmentFile.fetch(self, *a, **k)
+                f = type(self)._faults
+
+                def gen():
+                    for rec in it:
+                        f.hit('AlignmentFile.read')
+                        yield rec
+                return gen()
+        _READER_CLS.append(_Reader)
+    cls = _READER_CLS[0]
+    cls._faults = faults
+
+    def open_(path, mode='r', *a, **k):
+        if 'w' in mode:
+            return pysam.AlignmentFile(path, mode, *a, **k)
+        return cls(path, mode, *a, **k)
+    return open_
 
 
 class _Writer:
@@ -126,7 +160,7 @@ class _Writer:
 class FaultPlan:
     """raise E at the n-th call of seam s"""
     SEAMS = ['pysam.sort', 'pysam.index', 'pysam.merge', 'os.rename', 'os.remove', 'move', 'shutil.rmtree',
-             'AlignmentFile.write', 'AlignmentFile.close', 'pysam.idxstats']
+             'AlignmentFile.write', 'AlignmentFile.close', 'pysam.idxstats', 'AlignmentFile.read']
 
     def __init__(self, plan, log):
         self.plan = {}
@@ -261,7 +295,8 @@ def _child(d, argv, sim, out_fd):
     if sim.get('faults') is not None:
         bf.pysam = _ModProxy(pysam, faults, 'pysam', wrap_writer=True)
         bf.os = _ModProxy(os, faults, 'os')
-        tm.pysam = _ModProxy(pysam, faults, 'pysam')
+        tm.pysam = _ModProxy(pysam, faults, 'pysam', wrap_reader=True)
+        tagging.AlignmentFile = reader_open(faults)
         if hasattr(tm, 'shutil'):
             tm.shutil = _ModProxy(tm.shutil, faults, 'shutil')
         if hasattr(bf, 'move'):
